@@ -390,8 +390,37 @@ func fromDir(d *go9p.Dir, dotu bool) wire.Stat {
 func toQid(q wire.Qid) go9p.Qid   { return go9p.Qid{Type: q.Type, Version: q.Version, Path: q.Path} }
 func fromQid(q go9p.Qid) wire.Qid { return wire.Qid{Type: q.Type, Version: q.Version, Path: q.Path} }
 
+// ghost: in the plain dialect the constructors are also handed values for the fields only 9P2000.u has (an
+// extension, numeric ids, an error number — a caller that serves both dialects from one Dir or one code path does
+// that): they have no place on the wire and must leave no trace in it.
+func ghost(m *wire.Msg, dotu bool) bool {
+	return !dotu && (len(m.Name)+len(m.Stat.Name)+len(m.Uname)+len(m.Ename)+int(m.Tag))%2 == 0
+}
+
+func ghostDir(d *go9p.Dir) *go9p.Dir {
+	d.Ext = "ghost-extension-of-the-other-dialect"
+	d.Uidnum, d.Gidnum, d.Muidnum = 4242, 4243, 4244
+	return d
+}
+
 // pack calls the go9p constructor for m into fc.
 func pack(fc *go9p.Fcall, m *wire.Msg, dotu bool) error {
+	if ghost(m, dotu) {
+		switch m.Type {
+		case wire.Tauth:
+			return go9p.PackTauth(fc, m.Afid, m.Uname, m.Aname, 4242, dotu)
+		case wire.Tattach:
+			return go9p.PackTattach(fc, m.Fid, m.Afid, m.Uname, m.Aname, 4242, dotu)
+		case wire.Rerror:
+			return go9p.PackRerror(fc, m.Ename, 77, dotu)
+		case wire.Tcreate:
+			return go9p.PackTcreate(fc, m.Fid, m.Name, m.Perm, m.Mode, "ghost-extension", dotu)
+		case wire.Rstat:
+			return go9p.PackRstat(fc, ghostDir(toDir(&m.Stat)), dotu)
+		case wire.Twstat:
+			return go9p.PackTwstat(fc, m.Fid, ghostDir(toDir(&m.Stat)), dotu)
+		}
+	}
 	switch m.Type {
 	case wire.Tversion:
 		return go9p.PackTversion(fc, m.Msize, m.Version)
